@@ -10,6 +10,8 @@ SPEC = {
          "thorough": {"checks": 1500, "shards": 16, "timeout": 3000}},
         {"name": "paranoid-termination", "pkg": O4, "kind": "plain", "run": "^TestVerifC09ParanoidTermination$",
          "quick": {"shards": 8, "timeout": 300}, "thorough": {"shards": 16, "timeout": 1500}},
+        {"name": "paranoid-exhaustive", "pkg": O4, "kind": "plain", "run": "^TestVerifC09ParanoidExhaustive$",
+         "quick": {"shards": 8, "timeout": 300}, "thorough": {"shards": 16, "timeout": 3000}},
         {"name": "fuzz-end-to-end", "pkg": O4, "kind": "fuzz", "fuzz": "FuzzVerifC09EndToEnd", "tiers": ("thorough",),
          "thorough": {"fuzztime": "90s", "timeout": 600}},
     ],
